@@ -310,6 +310,24 @@ def model_random(n, rng):
             return dict(nodes=nodes)
 
 
+def models_wide():
+    """fixed models with fan-in 11 and 12 (two-digit positional indices: an order by str(param) differs from the order by the integer param),
+    parents declared in a shuffled order, plus one named parent where the class allows it: an Operation, a Summary with its observed twin
+    (computed from the twins of 12 observed simulators) and a Discrepancy (simulated args and observed tuple)"""
+    out = []
+    for k in (11, 12):
+        order = [(7 * j + 3) % k for j in range(k)]            # a permutation of 0..k-1 (7 is coprime to 11 and 12)
+        cs = [dict(cls='C', pos=[], named={}) for _ in range(k + 1)]
+        out.append((dict(nodes=cs + [dict(cls='O', pos=order, named={'kw': k})]), [[]], [None, [nm(k + 1)]]))
+        sims = [dict(cls='S', pos=[], named={}) for _ in range(k)]
+        summ = dict(cls='U', pos=order, named={})
+        out.append((dict(nodes=sims + [summ]), [list(range(k))], [None, [twin(k)], [nm(k), twin(k)]]))
+        sums = [dict(cls='U', pos=[0], named={}) for _ in range(k)]
+        shifted = [1 + j for j in order]
+        out.append((dict(nodes=[dict(cls='S', pos=[], named={})] + sums + [dict(cls='D', pos=shifted, named={})]), [[0]], [None, [nm(k + 1)]]))
+    return out
+
+
 def case_variants(desc, rng=None, k=None):
     """(observed, with_values, outputs) combinations of one model: all of them (k None) or the canonical one + k seeded samples"""
     n = len(desc['nodes'])
@@ -370,7 +388,13 @@ def run(tier='quick', seed=0, first_failure_only=False, want=None, budget_s=None
         return False
 
     stop = False
-    for n in range(1, n_ex + 1):
+    n_wide = 0
+    for desc, obs_sets, out_sets in models_wide():
+        n_wide += 1
+        if one_model(desc, [(o, [], u) for o in obs_sets for u in out_sets]):
+            stop = True
+            break
+    for n in ([] if stop else range(1, n_ex + 1)):
         for desc in models_exhaustive(n):
             vs = case_variants(desc) if n <= n_ex_full else (case_variants(desc, rng, k_ex) if k_ex else case_variants(desc))
             if one_model(desc, vs):
@@ -395,6 +419,7 @@ def run(tier='quick', seed=0, first_failure_only=False, want=None, budget_s=None
     bound = ('all models <= %d nodes x all (observed, with_values, outputs) subsets; all models of %d nodes x %s; ' % (
         n_ex_full, n_ex, 'all subsets' if not k_ex else 'canonical + %d sampled subsets' % k_ex)) + \
         '; '.join('%d seeded random models of %d nodes x (canonical + %d sampled subsets)' % (c, n, k) for n, c, k in plan_random) + \
+        '; %d fixed models with fan-in 11 / 12 (Operation + named parent, Summary with observed twin, Discrepancy; shuffled declared order)' % n_wide + \
         '; classes Constant/Operation/Prior/Simulator/Summary/Discrepancy, positional (both declared orders) and named edges, batch_size %d' % BS
     return dict(name='pipeline-dataflow-semantics', bound=bound,
                 rule='non-trivial = model with >= 3 nodes one of which has >= 2 parents', cases=cases, nontrivial=nontrivial, failures=failures,
